@@ -6,6 +6,7 @@ import Depccg.Ja
 import Depccg.OpsSearch
 import Depccg.OpsGlue
 import Depccg.OpsTree
+import Depccg.OpsXml
 
 namespace Depccg
 namespace Ops
@@ -146,6 +147,7 @@ def dispatch (st : State) (line : String) : State × String :=
     if op == "beam" then (st, OpsSearch.beamOp ts) else
     if let some r := OpsGlue.dispatch op ts then (st, r) else
     if let some r := OpsTree.dispatch op ts then (st, r) else
+    if let some r := OpsXml.dispatch op ts then (st, r) else
     match catOps op ts with
     | some r => (st, r)
     | none =>
